@@ -43,7 +43,7 @@ def content(rng):
     if k < 0.54:
         return 0
     if k < 0.64:
-        return rng.choice(['apple', 'Bee', 'x y', 'k1'])
+        return rng.choice(['apple', 'Bee', 'x y', 'k1', '#1024', '#A7', '#TODO', '#tag', 'N/A', '#', '#DIV', 'VALUE!'])
     if k < 0.70:
         return rng.choice(['10', '3.5', '007', '1000', '-500', '9e9'])
     if k < 0.78:
